@@ -39,6 +39,10 @@ SECOND = [("collections", "OrderedDict"), ("verif_sink", "other"), ("builtins", 
           ("collections", "deque"), ("datetime", "date")]
 
 
+REGRESSION = [      # inputs of test/test_crashes.py (issues 22, numpy poly1d, POP of a MARK)
+    b"\x80\x04\x95\x82\x00\x00\x00\x00\x00\x00\x00(\x8c\x05numpy\x8c\x06poly1d\x93\x94\x8c\x05numpy\x8c\x04size\x93\x94\x8c\x05numpy\x8c\x0c__builtins__\x93\x94h\x00N\x85R\x94h\x03\x94h\x02\x94\x8c\x04eval\x8c\x04eval\x86\x94\x8c\x05numpy\x8c\x06poly1d\x93\x94.",
+    b"(c__builtin__\nexec\nS'print(1)'\no0N.", b"(I1\n(I2\n0I3\nt.", b"\x80\x02(K\x010K\x02.",
+]
 SHADOWMODS = ["collections", "importlib", "gzip", "datetime", "functools", "string"]
 
 
@@ -116,7 +120,19 @@ def build_items(ctx, plan, per_shape=1, natural=0):
                 vi += 1
                 ops, var = instantiate(prog, v1, v2, ctx.rng)
                 items.append({"id": len(items), "prog": ops, "variants": var, "tag": tag})
-    for data, tag in genvalues.natural_pickles(ctx.rng, natural):
+    extra = []
+    if natural:      # real model pickles (BINPERSID storages, torch._utils rebuild calls, OrderedDict + SETITEMS) and the
+        import subprocess           # repository's own regression inputs
+        import sys
+        from .core import ROOT
+        try:
+            r = subprocess.run([sys.executable, "-m", "harness.torchgen", str(ctx.seed), "4" if ctx.quick else "9"], cwd=ROOT,
+                               capture_output=True, text=True, timeout=300)
+            extra += [(bytes.fromhex(h), "natural-torch") for h in json.loads(r.stdout)]
+        except Exception as e:  # noqa: BLE001 - torch is optional for this family
+            ctx.notes.append("torch model pickles not generated: " + type(e).__name__)
+        extra += [(d, "natural-regression") for d in REGRESSION]
+    for data, tag in list(genvalues.natural_pickles(ctx.rng, natural)) + extra:
         try:
             it = rec_vm.from_bytes(len(items), data, tag)
         except OutOfDomain:
